@@ -18,10 +18,14 @@ class Ctx:
             if os.environ.get("SA_NO_NORMALISE") != "1":
                 from .normalise import normalise
 
-                trees, report = normalise(self.p_raw)
-                self.normal_form = report
-                if trees:
-                    self.p = Program(repo, overlay, trees=trees)
+                try:
+                    trees, report = normalise(self.p_raw)
+                    self.normal_form = report
+                    if trees:
+                        self.p = Program(repo, overlay, trees=trees)
+                except Exception as e:  # the pass is an aid: without it the rules see the program as written
+                    self.normal_form = {"inlined_calls": 0, "helpers": [], "removed": [], "error": f"{type(e).__name__}: {e}"}
+                    self.p = self.p_raw
         self.tier = tier
         self._cg = None
         self._ef = None
